@@ -49,6 +49,11 @@ func impostor() {
 		os.Exit(70)
 	}
 	tc := &tls.Config{Certificates: []tls.Certificate{vp.KeyPair(certB, keyB)}, MinVersion: tls.VersionTLS12}
+	// all impostor processes belong to one party: they share their session-ticket key, so a session that a
+	// host set up with one of them can be offered for resumption to another
+	var ticketKey [32]byte
+	copy(ticketKey[:], "verif impostor shared ticket key")
+	tc.SetSessionTicketKeys([][32]byte{ticketKey})
 	switch cfg.ImpChain {
 	case "ipsan", "localhost":
 		// the announced certificate is public: the impostor appends it behind its own leaf. "ipsan": the
